@@ -1,7 +1,7 @@
 (** C07 — Pausing, resuming and cancelling events preserves remaining delays.
     Statements only; proofs are [exact] of lemmas in Proofs/EnvPause.v. *)
 From Coq Require Import ZArith List Bool Lia Sorting.Sorted Sorting.Permutation.
-From SimVerif Require Import Model.Base Model.Env Proofs.EnvInv Proofs.EnvPause Proofs.EnvRem.
+From SimVerif Require Import Model.Base Model.Env Proofs.EnvInv Proofs.EnvPause Proofs.EnvRem Proofs.EnvOpTime.
 Import ListNotations.
 Open Scope Z_scope.
 
@@ -116,6 +116,26 @@ Section C07.
   Proof. exact (pause_rem A). Qed.
   Theorem C07_unpause_keeps_remaining_delay : forall (en : env A) a i r, Rem A en i r -> Rem A (unpause en a) i r.
   Proof. exact (unpause_rem A). Qed.
+
+  (** * whole histories (Proofs/EnvOpTime.v): [chain i s s' t] = any sequence of executed events (whatever their actions do), batches of
+      calls made between events and runs started, leading from s to s', with t = the time the clock advanced over the steps at whose
+      start event i was pending *)
+  (** remaining delay = initial remaining delay minus the time spent pending, at every later point — or the event is dead *)
+  Theorem C07_remaining_delay_along_any_history : forall i s s' t r,
+    chain A W wsrc exec wfail i s s' t -> Inv A (snd s) -> Rem A (snd s) i r ->
+    Rem A (snd s') i (r - t) \/ Dead A (snd s') i.
+  Proof. intros i s s' t r CH. exact (chain_rem A W wsrc exec wfail i s s' t CH r). Qed.
+  (** an event is dispatched after exactly its delay of time spent pending: pauses of any number, nesting and length postpone it by
+      exactly their length and lose nothing *)
+  Theorem C07_fires_after_exactly_its_delay_of_unpaused_time : forall i s w1 en1 t r e0 q s2,
+    Inv A (snd s) -> Rem A (snd s) i r -> chain A W wsrc exec wfail i s (w1, en1) t ->
+    queue en1 = e0 :: q -> e_id e0 = i -> e_cancelled e0 = false -> step wsrc exec wfail (w1, en1) = Some (Ok s2) ->
+    t + (now (snd s2) - now en1) = r /\ pendingb A en1 i = true.
+  Proof. exact (fires_after_exactly_its_delay A W wsrc exec wfail). Qed.
+  (** cancelled (or dispatched) once, never live again *)
+  Theorem C07_dead_forever : forall i s s' t r,
+    Inv A (snd s) -> chain A W wsrc exec wfail i s s' t -> Dead A (snd s) i -> ~ Rem A (snd s') i r.
+  Proof. exact (dead_forever A W wsrc exec wfail). Qed.
 End C07.
 
 Print Assumptions C07_pause_spec.
@@ -137,6 +157,9 @@ Print Assumptions C07_step_paused_event_loses_nothing.
 Print Assumptions C07_dispatched_when_due.
 Print Assumptions C07_pause_keeps_remaining_delay.
 Print Assumptions C07_unpause_keeps_remaining_delay.
+Print Assumptions C07_remaining_delay_along_any_history.
+Print Assumptions C07_fires_after_exactly_its_delay_of_unpaused_time.
+Print Assumptions C07_dead_forever.
 
 (** Non-vacuity: pause at time 8, resume at 24: the event due at 16 comes back at 32. *)
 From SimVerif Require Import Model.FamEnv.
